@@ -35,6 +35,7 @@ class OnionWorld:
         self.ident_map = {}     # (kind, node, real) -> spec ident
         self.n_ident = 0
         self.raw_log = []       # on_raw_data observations at originators
+        self.on_step = None     # callback(world, event) after every logged step (property-specific probes)
         self.adv_keys = []      # session keys the attacker could derive from its own handshake material
         self.orig_cid = {}      # datagram seq -> circuit id it carried before the attacker rewrote it
         self.escaped = []       # exceptions that escaped the receive path during a delivery
@@ -292,6 +293,8 @@ class OnionWorld:
         ev.update(args)
         ev["post"] = self.project()
         self.events.append(ev)
+        if self.on_step is not None:
+            self.on_step(self, ev)
         return ev
 
     def find(self, seq):
